@@ -51,7 +51,7 @@ class C04(Prop):
     thorough_runs = 60000
     chunk = 16
     rule = ('one case = one generated world with 1-6 time controls and time rules on 1-3 targets (pipe/pump status, valve setting): AT TIME '
-            '(once, optionally repeating), AT CLOCKTIME (daily), rules over SYSTEM TIME / SYSTEM CLOCKTIME with =,>=,<=,>,<, AND/OR, ELSE, '
+            '(once, optionally repeating), AT CLOCKTIME (daily, once, from clock day first_day), rules over SYSTEM TIME / SYSTEM CLOCKTIME with =,>=,<=,>,<, AND/OR, ELSE, '
             'priorities; start_clocktime on/off the hour, instants on the hydraulic grid, on the rule grid only, off both, 0, duration, equal to or '
             'one second from another instant, around midnight; report ALL or grid; faults: pause/persist/restart next to control instants, '
             'rescued solver faults, evaluator-order perturbation. The real run is compared with the reference control timeline at EVERY accepted '
